@@ -138,10 +138,16 @@ class RouterInfoCache:
             if not router_info:
                 if _debug: RouterInfoCache._debug("    - no route info")
             else:
-                for dnet in (dnets or router_info.dnets):
-                    del self.path_info[(snet, dnet)]
-                    if _debug: RouterInfoCache._debug("    - del path: %r -> %r via %r", snet, dnet, router_info.address)
-                del self.routers[snet][address]
+                # only the networks this router is credited with, and the
+                # router itself only when none of them is left
+                for dnet in (dnets or list(router_info.dnets)):
+                    if dnet in router_info.dnets:
+                        del router_info.dnets[dnet]
+                        del self.path_info[(snet, dnet)]
+                        if _debug: RouterInfoCache._debug("    - del path: %r -> %r via %r", snet, dnet, router_info.address)
+                if not router_info.dnets:
+                    del self.routers[snet][address]
+                    if _debug: RouterInfoCache._debug("    - no dnets: %r via %r", snet, router_info.address)
             return
 
         # look for routers to the dnets
